@@ -176,6 +176,10 @@ class Auer(PALAlgorithm):
                     to_be_discarded.append(pt)
                     break
 
+        # Keep the rows of beta_t aligned with the designs that remain in S.
+        kept_rows = [pt_i for pt_i, pt in enumerate(self.S) if pt not in to_be_discarded]
+        self.beta_t = self.beta_t[kept_rows]
+
         for pt in to_be_discarded:
             self.S.remove(pt)
 
